@@ -322,7 +322,9 @@ def shape_tag(s):
         {None: 'o-', 'layer_column': 'olc', 'dmplex': 'odm'}[s.get('block_order')], s.get('surfaces', 'none'),
         ''.join(str(n) for n in s.get('wells', [])) or '0', s.get('ncentres', 0), s.get('centres', 'mid'),
         '.names' if s.get('symnames') else '', '.gdc' if s.get('gdc') else '') + ('.attop' if s.get('attop') else '') + (
-            '.hist-' + '>'.join({None: 'none', 'layer_column': 'lc', 'dmplex': 'dm'}[o] for o in s['order_history']) if s.get('order_history') else '')
+            '.hist-' + '>'.join({None: 'none', 'layer_column': 'lc', 'dmplex': 'dm'}[o] for o in s['order_history']) if s.get('order_history') else '') + (
+            '.der-' + '+'.join('%s%s' % (op[0], ''.join(re.sub(r'[^0-9A-Za-z]', '', str(a)) for a in op[1:])) for op in s['derive']) if s.get('derive') else '') + (
+            '.edit-' + '+'.join(e if isinstance(e, str) else '%s%s' % (e[0], ''.join(re.sub(r'[^0-9A-Za-z]', '', str(a)) for a in e[1:])) for e in s['edit']) if s.get('edit') else '')
 
 
 def norm_label(label):
@@ -341,7 +343,20 @@ def task_shape(shape):
     def h(c):
         fs.files.clear()
         prov = Provider(c)
-        geo, info = MODEL.build(prov, M, np_, shape)
+        def rejected(ex, outcome):
+            # The real API refused a value handed to it (e.g. a validating property setter that
+            # forks on the sign of a symbolic value).  On that side of the fork there is no such
+            # geometry, hence nothing to write: the path is counted (evidence:
+            # c03_decision_procedure.rejected_inputs, path note) and carries no further
+            # obligation; the other side of the fork goes on.  A shape on which no path reaches
+            # the obligations is a vacuity error (below).
+            c.note('input rejected by the real API: %s' % ex)
+            c.stats['rejected_inputs'] = c.stats.get('rejected_inputs', 0) + 1
+            return outcome
+        try:
+            geo, info = MODEL.build(prov, M, np_, shape)
+        except MODEL.Rejected as ex:
+            return rejected(ex, 'input-rejected')
         r0, _ = c.reachable()
         if r0 != 'sat':
             c.prove(False, 'preconditions satisfiable (vacuity)'); return 'vacuous'
@@ -416,6 +431,8 @@ def task_shape(shape):
             """run one write / read of the real code; an exception is a failed obligation"""
             try:
                 return True, fn()
+            except MODEL.Rejected:
+                raise
             except Exception as ex:
                 import traceback
                 tb = traceback.extract_tb(ex.__traceback__)
@@ -451,7 +468,29 @@ def task_shape(shape):
                 r, m = c.solve(z3.Not(f))
                 if r == 'sat':
                     c.note('first differing line %d: %r' % (n, f1[n])); break
-        if shape.get('cycles', 3) >= 3:
+        if shape.get('edit'):
+            # the re-read geometry is changed through the API (new header values, block order,
+            # a layer renamed to itself, a new surface) and written again: the new file must
+            # carry the NEW state (nothing stale from the read), everything else is a fixed point
+            try:
+                ok, edited = stage(lambda: MODEL.edit(prov, g2, shape), 'edit')
+            except MODEL.Rejected as ex:
+                return rejected(ex, 'checked-until-edit-rejected')
+            if not ok: return 'exception'
+            ok, _ = stage(lambda: g2.write('g2e.dat'), 'edit-write')
+            if not ok: return 'exception'
+            fe = fs.files['g2e.dat']
+            ok, g3 = stage(lambda: M.mulgrid('g2e.dat'), 'edit-read')
+            if not ok: return 'exception'
+            MODEL.compare(cmp, g2, g3, exact=True, where='edit ', edited=edited)
+            flush()
+            ok, _ = stage(lambda: g3.write('g3.dat'), 'edit-rewrite-write')
+            if not ok: return 'exception'
+            ob(len(fe) == len(fs.files['g3.dat']), 'edit-rewrite-length: same number of lines (%d -> %d)' % (len(fe), len(fs.files['g3.dat'])))
+            whole3, _ = files_equal(fe, fs.files['g3.dat'])
+            ob(whole3, 'edit-rewrite: the file written after the edit is reproduced cell for cell')
+            flush()
+        elif shape.get('cycles', 3) >= 3:
             ok, g3 = stage(lambda: M.mulgrid('g2.dat'), 'cycle-read')
             if not ok: return 'exception'
             MODEL.compare(cmp, g2, g3, exact=True, where='cycle ')
@@ -465,7 +504,8 @@ def task_shape(shape):
 
     res = sym.explore(h, GeoCtx(timeout_ms=120000, incremental=True), max_paths=400, wall_s=1200)
     tr = report.summarize('shape ' + tag, res, failures, samples, extra=dict(distinct_obligations=len(distinct)))
-    if not any(p.outcome in ('checked', 'unit-mismatch', 'exception') for p in res['paths']):
+    reached = ('checked', 'unit-mismatch', 'exception') + (() if shape.get('edit') else ('checked-until-edit-rejected',))
+    if not any(p.outcome in reached for p in res['paths']):
         tr['error'] = 'vacuity: no path reached the obligations: %s' % tr['outcomes']
     return tr
 
@@ -493,6 +533,15 @@ def shapes(tier):
         add(topo='r2x2', nlayers=2, layers='low', convention=3, atmos=1, unit='FEET ', surfaces='one', attop=True, block_order=None, order_history=['dmplex', None])
         add(topo='mixtq', nlayers=1, convention=1, atmos=2, block_order='dmplex', order_history=[None, 'layer_column', 'dmplex'], surfaces='all', attop=True, cycles=2)
         add(topo='r2x1', nlayers=1, layers='zerotop', convention=2, atmos=0, block_order=None, order_history=['layer_column', None], surfaces='all', attop=True, cycles=2)
+        # derived geometries (real rename / refine / reduce / split / rotate / translate on the base topology: the
+        # by-name dictionaries are no longer in list order) and geometries edited after they were read
+        add(topo='r2x2', nlayers=3, convention=0, atmos=0, surfaces='one', wells=[2], derive=[['rename_layer', 2, 7]], cycles=2)
+        add(topo='r2x1', nlayers=2, convention=1, atmos=1, unit='FEET ', surfaces='one', derive=[['refine_layers', [1]]], edit=['header'])
+        add(topo='r3x2', nlayers=2, convention=2, atmos=0, block_order='layer_column', wells=[2], symnames=True, derive=[['rename_column', 1, 40], ['rename_layer', 0, None]], cycles=2)
+        add(topo='r2x1', nlayers=2, convention=3, atmos=2, block_order='dmplex', surfaces='one', derive=[['refine', [1], True]], cycles=2)
+        add(topo='mix', nlayers=1, convention=0, atmos=1, derive=[['reduce', [0, 1, 2]], ['split_column', 0, 0]], symnames=True, cycles=2)
+        add(topo='r2x2', nlayers=2, layers='low', convention=0, atmos=2, gdc=True, derive=[['rotate', 30.0], ['translate', [5., -3., 2.]]],
+            edit=['header', 'gdc', ['block_order', 'dmplex'], ['rename_layer', 0], ['surface', 1, 1]])
         return S
     topos = ['r2x1', 'r2x2', 'r3x2', 'mix', 'mixtq']
     orders = [None, 'layer_column', 'dmplex']
@@ -533,6 +582,50 @@ def shapes(tier):
     for ti, topo in enumerate(topos):
         add(topo=topo, nlayers=1 + ti % 3, layers=['high', 'zerotop', 'low'][ti % 3], convention=ti % 4, atmos=ti % 3, unit=['', 'FEET '][ti % 2],
             surfaces=['all', 'one'][ti % 2], attop=True, symnames=True)
+    # derived geometries: real rename / refine / reduce / delete / split / rotate / translate operations on the base
+    # topology (several leave the by-name dictionaries in another order than the lists), every third one also
+    # edited after the read; (topology, layers, operations)
+    ders = [
+        ('r2x2', 3, [['rename_layer', 2, 7]]),
+        ('r2x1', 3, [['rename_layer', 1, 9], ['rename_layer', 3, 8]]),
+        ('mix', 2, [['rename_layer', 0, None]]),
+        ('r3x2', 2, [['refine_layers', [1]]]),
+        ('mixtq', 2, [['refine_layers', [1, 2]]]),
+        ('r2x1', 1, [['refine_layers', [1], 3]]),
+        ('r2x2', 2, [['refine_layers', [2]], ['rename_layer', 2, 11]]),
+        ('r3x2', 1, [['rename_column', 1, 40]]),
+        ('mix', 1, [['rename_column', 0, 33], ['rename_column', 3, 34]]),
+        ('r2x1', 2, [['refine', [1], True]]),
+        ('r2x2', 1, [['refine', [0]]]),
+        ('r2x2', 2, [['refine', [0, 1], 'x']]),
+        ('mixtq', 1, [['refine', [2]]]),
+        ('r3x2', 2, [['reduce', [0, 1, 3, 4]]]),
+        ('mix', 2, [['reduce', [0, 1, 2]], ['split_column', 0, 0]]),
+        ('r2x2', 1, [['split_column', 3, 1], ['rename_column', 0, 50]]),
+        ('r3x2', 1, [['delete_column', 2]]),
+        ('r2x2', 2, [['rotate', 30.0], ['translate', [5., -3., 2.]]]),
+        ('mix', 1, [['rotate', -75.0]]),
+        ('r2x1', 2, [['refine_layers', [1]], ['refine', [0], True], ['rename_layer', 0, None]]),
+        ('r2x1', 2, [['rename_layer', 0, None]]),
+        ('mixtq', 3, [['rename_layer', 3, 12], ['rename_column', 2, 21]]),
+    ]
+    edits = [['header'], ['header', 'gdc', ['rename_layer', 0]], [['surface', 0, 1], ['block_order', 'layer_column']], ['header', ['block_order', None], ['surface', 1, 1]],
+             [['rename_layer', 1], 'gdc'], ['header', 'gdc', ['block_order', 'dmplex'], ['rename_layer', 0], ['surface', 1, 1]]]
+    for k, (topo, nl, ops) in enumerate(ders):
+        order = [None, 'layer_column', 'dmplex'][k % 3]
+        if topo == 'mix' and order == 'dmplex': order = 'layer_column'
+        kw = dict(topo=topo, nlayers=nl, layers=['high', 'low'][k % 2], convention=k % 4, atmos=(k // 2) % 3, unit=['', 'FEET '][(k // 3) % 2], block_order=order,
+                  surfaces=surfs[(k + 1) % 3], wells=wells[k % 5], symnames=(k % 2 == 0), gdc=(k % 4 == 1), case='u' if k % 5 == 3 else None, derive=ops, cycles=3 if k % 4 == 0 else 2)
+        if k % 3 == 1:
+            ed = edits[(k // 3) % len(edits)]
+            if topo == 'mix': ed = [e for e in ed if e != ['block_order', 'dmplex']]
+            kw['edit'] = ed
+        add(**kw)
+    # geometries edited after the read, on the plain topologies
+    for k, ed in enumerate(edits):
+        topo = ['r2x1', 'mixtq', 'r2x2', 'r3x2', 'mixtq', 'r2x1'][k]
+        add(topo=topo, nlayers=1 + k % 3, layers=['high', 'low', 'zerotop'][k % 3], convention=(k + 1) % 4, atmos=k % 3, unit=['FEET ', ''][k % 2],
+            block_order=[None, 'dmplex', 'layer_column'][k % 3], surfaces=surfs[k % 3], wells=wells[(k + 2) % 5], symnames=(k % 2 == 1), gdc=(k % 2 == 0), edit=ed)
     # layer centres that print as 0.00 (exact decimal rounding model)
     for conv in (0, 1):
         for nl, lk in ((1, 'zeromid'), (2, 'zeromid'), (2, 'zeromid2'), (3, 'zeromid2')):
@@ -566,8 +659,10 @@ def run(tier, seed, rep):
         'exact decimal rounding axioms R(x) = floor(100 x + 1/2) / 100 (ties excluded) for the layer elevations of the zero-centre shapes']
     agg = {}
     for r in rep.results:
-        for k in ('boxed_decisions', 'boxed_fallbacks', 'box_proofs', 'known_hits', 'memo_hits', 'refined_witnesses'):
+        for k in ('boxed_decisions', 'boxed_fallbacks', 'box_proofs', 'known_hits', 'memo_hits', 'refined_witnesses', 'rejected_inputs'):
             agg[k] = agg.get(k, 0) + (r.get('stats') or {}).get(k, 0)
     rep.extra['c03_decision_procedure'] = agg
+    if agg.get('rejected_inputs'):
+        rep.outside.append('values that the real API refused when they were assigned while the geometry was set up or edited (%d paths ended there: no such geometry, no obligation; every shape still has a path that reaches the obligations)' % agg['rejected_inputs'])
     rep.process_failures()
     return rep.finish(rule='one obligation per (shape, path, compared item: header option, node, column, connection, layer, surface, well point, name list) plus cell-for-cell file equalities; distinct by z3 AST hash')
